@@ -303,26 +303,68 @@ func runC16(p *Prog, r *Report, tier string) {
 	}
 	// PrepareRecord exactly once under Template in both
 	for _, f := range []*ssa.Function{are, av2} {
+		// on the enumerated paths of the add function: PrepareRecord is called only where the set type is known to be
+		// Template, and every successful exit of a template set has called it exactly once (the type test may be spread
+		// over a "supported type" guard and a "not a data set" branch, or sit in a helper that was spliced back)
 		n := 0
 		okG := true
-		eachInstr(f, func(in ssa.Instruction) {
+		symK := ""
+		w := &absWalker{MaxPaths: 20000}
+		w.OnInstr = func(st *absState, in ssa.Instruction) {
+			if u, ok := in.(*ssa.UnOp); ok && u.Op == token.MUL && isFieldLoad(u, "pkg/entities.set.setType") {
+				symK = st.key(u)
+			}
 			c := callOf(in)
-			if c == nil || !c.IsInvoke() || c.Method.Name() != "PrepareRecord" {
+			if c == nil {
 				return
 			}
-			n++
-			g := false
-			for _, fct := range blockFacts(in.Block()) {
-				if isFieldLoad(fct.X, "pkg/entities.set.setType") && fct.Op == token.EQL {
-					if v, ok := constInt(fct.Y); ok && v == 0 {
-						g = true
-					}
-				}
+			isPrep := c.IsInvoke() && c.Method.Name() == "PrepareRecord"
+			if sc := c.StaticCallee(); sc != nil && sc.Name() == "PrepareRecord" && sc.Signature.Recv() != nil {
+				isPrep = true // called on the concrete record type (the record was just constructed)
 			}
-			if !g || inLoop(in.Block()) {
+			if !isPrep {
+				return
+			}
+			lo, hi := st.bounds(symK)
+			if symK == "" || lo != 0 || hi != 0 {
 				okG = false
 			}
-		})
+			st.Events = append(st.Events, absEvent{Kind: "prepare", In: in})
+		}
+		w.OnEnd = func(st *absState, last ssa.Instruction) {
+			rt, ok := last.(*ssa.Return)
+			if !ok || len(rt.Results) == 0 {
+				return
+			}
+			isNil, known := st.nilness(rt.Results[len(rt.Results)-1])
+			if !known || !isNil {
+				return
+			}
+			cnt := 0
+			for _, e := range st.Events {
+				if e.Kind == "prepare" {
+					cnt++
+				}
+			}
+			lo, hi := st.bounds(symK)
+			if symK != "" && lo == 0 && hi == 0 {
+				n++
+				if cnt != 1 {
+					okG = false
+				}
+			} else if cnt != 0 {
+				okG = false
+			}
+		}
+		if len(f.Blocks) > 0 {
+			w.walk(newAbsState(), f.Blocks[0], 0)
+		}
+		if w.Overflow {
+			okG = false
+		}
+		if n > 1 {
+			n = 1
+		}
 		r.Check(n == 1 && okG, "R-EQUIV.prepare", fnKey(f)+": PrepareRecord once for template records", p.pos(f.Pos()), "one call, guarded by setType == Template, outside loops", "the template record header is not written exactly once", true)
 	}
 	// the copying paths never adopt the caller's slice: the adopting constructors are called from AddRecordV2 only
